@@ -3,6 +3,7 @@
 package main
 
 import (
+	"bytes"
 	"fmt"
 	"math/big"
 	"sort"
@@ -219,6 +220,22 @@ func genC01(c *Ctx) {
 			emitVerify("verify/other-tag", key, hashPoint(msg, h2), sig, verifyAns(key.pk, sig, msg, h2))
 			ok := keys[(ki+1)%len(keys)]
 			emitVerify("verify/other-key", ok, hpoint, sig, verifyAns(ok.pk, sig, msg, h))
+			// the same three stated outright (the model takes the hash points from the implementation's hashers, so a
+			// collision between messages or tags would make model and implementation agree): expect false, and the
+			// hash-to-curve images differ; moving a byte across the tag / message boundary, and a trailing zero byte
+			direct := func(class string, v string) { c.Case("verify/"+class, "expect false #", v) }
+			direct("other-message-direct", verifyAns(key.pk, sig, msg2, h))
+			direct("other-tag-direct", verifyAns(key.pk, sig, msg, h2))
+			direct("other-key-direct", verifyAns(ok.pk, sig, msg, h))
+			msg3 := append(append([]byte{}, msg...), 0)
+			direct("trailing-zero-direct", verifyAns(key.pk, sig, msg3, h))
+			if len(msg) > 0 {
+				h3 := crypto.NewExpandMsgXOFKMAC128(tag + string(msg[:1]))
+				direct("boundary-shift-direct", verifyAns(key.pk, sig, msg[1:], h3))
+				c.Case("hash-points-distinct", "expect true #", fmt.Sprint(!bytes.Equal(hashPoint(msg[1:], h3), hpoint)))
+			}
+			c.Case("hash-points-distinct", "expect true #", fmt.Sprint(!bytes.Equal(hashPoint(msg2, h), hpoint) &&
+				!bytes.Equal(hashPoint(msg, h2), hpoint) && !bytes.Equal(hashPoint(msg3, h), hpoint)))
 		}
 	}
 	// fixed hashers: chosen 128-byte outputs including chunks >= p
